@@ -35,4 +35,16 @@ theorem byName_generic_counterexample : ¬ C06.ByNameReplacesFull := by
   revert this
   decide
 
+/-- C06-K2: `Struct(&T{}).Method("Get")` for the VALUE method `T.Get` is answered `ok` (the `(*T).Get` wrapper is in the
+    table and gets patched) and a call of `T.Get` still runs its original body -/
+theorem value_method_via_pointer_not_replaced :
+    let syms := C06.exSyms ++ ["x/pa.(*T).Get".toList]
+    let r := run syms C06.exEntries BState.init 0 [.structMethod ⟨C06.pa, "T".toList, true⟩ "Get".toList]
+    r.2 = [Res.ok] ∧ behavOf syms r.1.patched C06.eGet = none := by decide
+
+/-- C06-K3 (repaired by F27): what the pinned `GetInnerFunc` did — the first CALL target, even when it is
+    `runtime.duffcopy` in front of the shape body — is what `InnerFn.inner` still says for code that cannot tell the
+    helper from the body; the repaired loop skips targets inside package runtime (not expressible in `InnerFn.Ins`). -/
+theorem first_call_wins : InnerFn.inner [.fill 4, .call (-100000), .fill 3, .call (-200)] = some (-99991) := by decide
+
 end C06F
